@@ -355,6 +355,57 @@ pub fn run(ctx: &Ctx) -> PropResult {
             }
         }
     }));
+    // the patterns people actually write, each for every type, against every value stratum: a special case keyed on
+    // one exact pattern string is only ever reached by that string
+    wls.push(Workload::cases("common_pattern_corpus", ctx.count(150_000, 4_000_000), |rec, idx, rng| {
+        let pats = &crate::model::pattern_gen::COMMON_PATTERNS;
+        let (p, _, _, _) = pats[(idx % pats.len() as u64) as usize];
+        let k = kinds()[((idx / pats.len() as u64) % 3) as usize];
+        let (i, off) = gen_fmt_value(rng);
+        rec.bin("shape/common-pattern");
+        judge(rec, k, i, off, p, None);
+    }));
+    // EVERY Unicode scalar value except NUL, the apostrophe and the ASCII letters as a one-character literal between two
+    // fields (and once more right after an apostrophe-quoted segment): a literal is copied, whatever it looks like
+    let n_cp: u64 = 0x11_0000;
+    wls.push(Workload::chunks("every_code_point_as_a_literal", n_cp, 1 << 12, |rec, r| {
+        let i = (cal::days_from_civil(2022, 5, 2) as i128) * D + (15 * 3600 + 4 * 60 + 5) as i128 * NS + 6_007_008;
+        let vals: Vec<(Kind, LibVal, Val)> = kinds().iter().filter_map(|k| {
+            let lv = trap(|| lib_value(*k, i, 3_600)).ok()?;
+            let v = trap(|| lv.getter_val(*k)).ok()??;
+            Some((*k, lv, v))
+        }).collect();
+        if vals.len() != 3 {
+            rec.bin(super::diff::SKIP_START);
+            return;
+        }
+        let mut n = 0u64;
+        for cp in r {
+            let Some(c) = char::from_u32(cp as u32) else { continue };
+            if c == '\0' || c == '\'' || c.is_ascii_alphabetic() {
+                continue;
+            }
+            for (k, lv, v) in vals.iter() {
+                let (f1, f2) = if *k == Kind::Time { ("HH", "mm") } else { ("dd", "MM") };
+                for shape in 0..2 {
+                    let p = if shape == 0 { format!("{}{}{}", f1, c, f2) } else { format!("'{}'{}{}{}", f1, c, c, f2) };
+                    let exp = render(v, &p);
+                    let got = trap(|| lv.format(&p));
+                    n += 1;
+                    let ok = matches!((&exp, &got), (Some(e), Ok(g)) if e == g);
+                    if !ok {
+                        rec.cur_idx = cp;
+                        let block = cp >> 8;
+                        rec.violation(format!("C11|{}|format|literal-code-point-not-copied|U+{:04X}xx", kind_name(*k), block), || json!({"type": kind_name(*k), "pattern": p, "code_point": format!("U+{:04X}", cp), "documented": exp, "observed": got.as_ref().map_err(|e| e.to_json())}));
+                    }
+                }
+            }
+        }
+        rec.evals(n);
+        rec.api_n("format", n);
+        rec.nontrivial_counted(n);
+        *rec.bins.entry("literal/every-code-point").or_insert(0) += n;
+    }));
     // call sequences on one thread: the same instant under changing offsets with one pattern, and one value under
     // changing patterns (then the first again) — what a "last result" memo with too small a key gets wrong
     wls.push(Workload::cases("same_value_sequences", ctx.count(30_000, 1_000_000), |rec, idx, rng| {
@@ -372,12 +423,12 @@ pub fn run(ctx: &Ctx) -> PropResult {
     let out = run_workloads(ctx, wls);
     let mut meta = PropMeta::default();
     meta.rule = format!(
-        "every (type, symbol, width 1..=10) — {} combinations — against {} values each (strata: BC and 5–7 digit years, 1–3 digit years, hours 0/11/12/13/23, noon/midnight ±1 s, week 52/53/1 year edges, month ends, offsets with minutes and seconds of both signs and offsets that move the local date); random compositions of 1–8 tokens with ASCII punctuation, non-symbol letters, digits, multi-byte literals, quoted segments with doubled apostrophes and the other type's symbols. Oracle: fmt_spec, a renderer written from the documentation tables (self-checked on the documentation's examples), fed with the value's own getter values (year, month, day, day_of_year, weekday, hour … nano, get_offset; the week number, which has no getter, is what a bare `w` prints) — which date/week/weekday an instant has is C01/C02/C10's claim, how the fields are rendered is this one's. Not judged: `yy` on negative years, NUL, unterminated quotes. Every judged case is non-trivial; distinct by hash of (value, pattern). Literal alphabet incl. line ends, tab, NBSP, backslash, DEL, zero-width and combining marks and Unicode numerics that are not ASCII digits; literal runs of 200…70 000 identical characters (around 255/256 and 65 535/65 536). Call sequences: one instant under changing offsets with one pattern, one value under changing patterns, then the first call again. Offset::Local under a changing system zone: the same format/to_string call on one value carrying Offset::Local with only the hooked zone changing in between must follow the zone (compared with the Offset::Fixed twin). Right after a symbol run or an apostrophe the literal is sometimes the character's truncation look-alike (U+0100·k + c); literals include code points an implementation might reserve (noncharacters, private use, BOM, U+FFFD, U+10FFFF); sub-second values next to powers of ten.",
+        "every (type, symbol, width 1..=10) — {} combinations — against {} values each (strata: BC and 5–7 digit years, 1–3 digit years, hours 0/11/12/13/23, noon/midnight ±1 s, week 52/53/1 year edges, month ends, offsets with minutes and seconds of both signs and offsets that move the local date); random compositions of 1–8 tokens with ASCII punctuation, non-symbol letters, digits, multi-byte literals, quoted segments with doubled apostrophes and the other type's symbols. Oracle: fmt_spec, a renderer written from the documentation tables (self-checked on the documentation's examples), fed with the value's own getter values (year, month, day, day_of_year, weekday, hour … nano, get_offset; the week number, which has no getter, is what a bare `w` prints) — which date/week/weekday an instant has is C01/C02/C10's claim, how the fields are rendered is this one's. Not judged: `yy` on negative years, NUL, unterminated quotes. Every judged case is non-trivial; distinct by hash of (value, pattern). Literal alphabet incl. line ends, tab, NBSP, backslash, DEL, zero-width and combining marks and Unicode numerics that are not ASCII digits; literal runs of 200…70 000 identical characters (around 255/256 and 65 535/65 536). Call sequences: one instant under changing offsets with one pattern, one value under changing patterns, then the first call again. Offset::Local under a changing system zone: the same format/to_string call on one value carrying Offset::Local with only the hooked zone changing in between must follow the zone (compared with the Offset::Fixed twin). Right after a symbol run or an apostrophe the literal is sometimes the character's truncation look-alike (U+0100·k + c); literals include code points an implementation might reserve (noncharacters, private use, BOM, U+FFFD, U+10FFFF); sub-second values next to powers of ten. EVERY Unicode scalar value (except NUL, the apostrophe and the ASCII letters) as a one-character literal between two fields and after a quoted segment, for all three types (exhaustive over the literal alphabet). A corpus of 62 patterns people actually write (ISO, compact key forms like yyyyMMdd, regional, mail/log forms, week dates), each for every type against every value stratum.",
         combos.len(),
         per
     );
     meta.required_bins = vec![
-        "local-twin/zone-switch-judged",
+        "local-twin/zone-switch-judged", "shape/common-pattern", "literal/every-code-point",
         "shape/doubled-apostrophe", "shape/quoted-segment", "shape/over-long-run", "shape/same-value-call-sequence", "shape/multi-byte-literal", "shape/other-type's-symbol",
         "DateTime:h1/hour0", "DateTime:h2/hour12", "DateTime:k2/hour0", "DateTime:K1/hour12", "DateTime:b3/noon", "DateTime:b5/midnight", "DateTime:b1/noon±1s",
         "DateTime:y1/negative", "DateTime:y4/5+digits", "DateTime:y7/<4digits", "DateTime:w1/week53", "DateTime:w2/week1", "DateTime:G4/BC", "DateTime:e7/BC",
